@@ -756,3 +756,23 @@ Proof.
   - fold (gstate (s_tm mid) g). unfold g_ok, ST_BEGIN, ST_SUCCESS, ST_FAILURE, ST_ROLLBACK, ST_BEGIN_FAILURE, ST_BEGIN_ROLLBACK in *.
     destruct P as [-> | [P | [P | [[_ ->] | [_ ->]]]]]; try assumption; try contradiction; try discriminate.
 Qed.
+
+(** * the block's Counter only points at transactions of the block (what the router needs) *)
+Lemma seqN_in from n x : In x (seqN from n) -> from <= x /\ x < from + N.of_nat n.
+Proof.
+  revert from. induction n as [|k IH]; intros from H; [contradiction|].
+  simpl in H. destruct H as [<- | H]; [lia|]. apply IH in H. lia.
+Qed.
+
+Theorem counter_indices_in_block rs k l e :
+  In (k, l) (counter_obs rs) -> In e l -> (N.to_nat (fst (fst e)) < List.length rs)%nat.
+Proof.
+  unfold counter_obs. rewrite in_flat_map. intros [k0 [_ Hk]] He.
+  set (ll := flat_map _ (combine (seqN 0 (List.length rs)) rs)) in Hk.
+  assert (Hl : l = ll).
+  { destruct ll eqn:E; [contradiction|]. destruct Hk as [Hk | []]. inversion Hk. reflexivity. }
+  subst l. unfold ll in He. apply in_flat_map in He. destruct He as [[i r] [Hin Hx]].
+  apply in_combine_l in Hin. apply seqN_in in Hin. simpl in Hx.
+  destruct (existsb (N.eqb k0) (r_chains r)); [|contradiction].
+  destruct Hx as [<- | []]. simpl. lia.
+Qed.
